@@ -49,6 +49,9 @@ func (x *Executor) execCall(fr *Frame, st *State, reach string, call *ssa.CallCo
 			if g, ok := ld.X.(*ssa.Global); ok && g.Pkg != nil {
 				if con := x.u.eng.specs.Contracts[g.Pkg.Pkg.Path()][g.Name()]; con != nil {
 					con.Used = true
+					if fr.con != nil && len(fr.con.AtCall) > 0 {
+						x.atCallObligationsKey(fr, st, reach, g.Name(), g.Name(), con.Params, args, g.Pkg.Pkg)
+					}
 					return x.applyContract(fr, st, reach, con, call.Signature(), args, resTy, g.Name())
 				}
 			}
@@ -62,6 +65,9 @@ func (x *Executor) execCall(fr *Frame, st *State, reach string, call *ssa.CallCo
 							recv := x.value(fr, fa.X)
 							if recv.Addr != nil {
 								recv = Val{T: "0", Ty: recv.Ty}
+							}
+							if fr.con != nil && len(fr.con.AtCall) > 0 {
+								x.atCallObligationsKey(fr, st, reach, key, stt.Field(fa.Field).Name(), con.Params, append([]Val{recv}, args...), nil)
 							}
 							return x.applyContract(fr, st, reach, con, call.Signature(), append([]Val{recv}, args...), resTy, key)
 						}
@@ -103,6 +109,11 @@ func (x *Executor) atCallObligationsKey(fr *Frame, st *State, reach string, key,
 		return
 	}
 	u := x.u
+	if u.atMatched == nil {
+		u.atMatched = map[string]bool{}
+	}
+	u.atMatched["call:"+key] = true
+	u.atMatched["call:"+short] = true
 	vars := map[string]Val{}
 	for i, n := range names {
 		if i < len(args) && n != "" && n != "_" {
@@ -536,19 +547,17 @@ func (x *Executor) havocLoc(env *Env, st, pre *State, m Expr) error {
 	u := x.u
 	// Type.field : whole component
 	if sel, ok := m.(*ESel); ok {
-		if id, ok := sel.X.(*EIdent); ok {
-			if ty := x.lookupTypeName(env, id.Name); ty != nil {
-				_, isS := ty.Underlying().(*types.Struct)
-				_, isI := ty.Underlying().(*types.Interface)
-				if isS || isI {
-					if sel.Name == "*" {
-						return fmt.Errorf("T.* not supported")
-					}
-					for _, comp := range x.wholeComps(ty, sel.Name) {
-						x.heapHavoc(st, comp)
-					}
-					return nil
+		if ty := x.typeNameOf(env, sel.X); ty != nil {
+			_, isS := ty.Underlying().(*types.Struct)
+			_, isI := ty.Underlying().(*types.Interface)
+			if isS || isI {
+				if sel.Name == "*" {
+					return fmt.Errorf("T.* not supported")
 				}
+				for _, comp := range x.wholeComps(ty, sel.Name) {
+					x.heapHavoc(st, comp)
+				}
+				return nil
 			}
 		}
 		// p.f : single location (p may itself be a path through nested struct fields)
@@ -751,6 +760,26 @@ func (x *Executor) lvalRef(env *Env, e Expr) (string, types.Type, bool) {
 		}
 	}
 	return "", nil, false
+}
+
+// typeNameOf: the named type an expression denotes when it is a type name (T or pkg.T).
+func (x *Executor) typeNameOf(env *Env, e Expr) types.Type {
+	switch t := e.(type) {
+	case *EIdent:
+		return x.lookupTypeName(env, t.Name)
+	case *ESel:
+		if id, ok := t.X.(*EIdent); ok && env.pkg != nil {
+			if _, isVar := env.vars[id.Name]; isVar {
+				return nil
+			}
+			if ip := x.u.eng.importByLocalName(env.pkg, id.Name); ip != nil {
+				if tn, ok := ip.Scope().Lookup(t.Name).(*types.TypeName); ok {
+					return tn.Type()
+				}
+			}
+		}
+	}
+	return nil
 }
 
 func (x *Executor) lookupTypeName(env *Env, name string) types.Type {
